@@ -44,6 +44,21 @@ def iteration_model(ex, it, node):
     return set_iter(ctx, it.t, it.esort)
   if isinstance(it, VDict):
     return set_iter(ctx, it.dom, it.ksort)
+  if isinstance(it, VSeq) and it.esort == ItemSort:
+    from mmverif.engine import libcontracts
+    lift = libcontracts.item_hook(ctx, 'lift')
+    if lift is not None:
+      def elem_obj(c, k):
+        t = it.at(k)
+        if it.elems is not None:
+          c.assume(z3.IsMember(t, it.elems))
+        o = lift(c, t)
+        o.item_term = t
+        return o
+      return VIter(it.length, elem_obj,
+                   visited_sort=ItemSort if it.elems is not None else None,
+                   distinct=it.dupfree, whole=it.elems,
+                   to_term=lambda v: v.item_term)
   if isinstance(it, VSeq):
     return VIter(it.length, lambda c, k: term_value(it.at(k), it.esort),
                  visited_sort=it.esort if it.elems is not None else None,
